@@ -25,6 +25,13 @@ def catalogue():
                         s += [st("Mutate", "A", 2), st("NewIdent", "A")]
                     s += [st("Push", "A"), st("Fetch", "B"), st("MergeAll", "B")]
                     scheds.append({"replicas": ["A", "B"], "steps": s, "quiesce": True, "name": "p%d-a%d-b%d%s" % (p, a, b, "-others" if second else "")})
+    # a long-lived process goes on with the identity a fast-forward handed back: it changes it and commits, several times, the two
+    # replicas taking turns
+    s = [st("NewIdent", "A"), st("Push", "A"), st("Fetch", "B"), st("MergeAll", "B")]
+    for turn in range(3):
+        x, y = ("A", "B") if turn % 2 == 0 else ("B", "A")
+        s += [st("Mutate", x, 1)] * (1 + turn % 2) + [st("Push", x), st("Fetch", y), st("MergeAll", y), st("Mutate", y, 1), st("Push", y), st("Fetch", x), st("MergeAll", x)]
+    scheds.append({"replicas": ["A", "B"], "steps": s, "quiesce": True, "name": "taking-turns-on-the-merged-identity"})
     return scheds
 
 
